@@ -1507,7 +1507,13 @@ class P(Prop):
                     lo, hi = lo2, hi2
                 cands, kerr = [(lo + hi) / 2], (hi - lo) / 2 + kerr
         first = None
+        span = (T[-1] - T[0]) if mode == 2 else V[-1]
+        have = len(got) - (1 if mode == 1 else 0)
         for st in cands[:8]:
+            if int(span / st) > have + 2:       # (far more multiples of this step than observations: not worth enumerating them)
+                first = first or "%s resampling returned %d observations, the property demands %d (for the step %.12g the output exhibits)" % (
+                    what, len(got), int(span / st) + (1 if mode == 1 else 0), float(st))
+                continue
             msg = self.judge(case, got, self._expected_d(case, {"num": st}, kerr))
             if msg is None:
                 return None
